@@ -510,6 +510,25 @@ func run(c *Ctx) {
 		one(c, []byte(src), false, &s)
 	}
 	c.Dist["delicate-literal-and-operator-programs"] = len(dl)
+	// deep chains: the formatter adds parentheses the source did not have (!!y prints as !(!y), a[0].f[0] as (a[0]).f[0]), so a
+	// nesting that the parser accepts in the source must also be accepted in the formatted text
+	ndeep := 0
+	depths := []int{50, 400, 2000, 6000}
+	if c.Thorough() {
+		depths = append(depths, 9000, 9990)
+	}
+	for _, d := range depths {
+		for _, src := range []string{
+			"x = " + strings.Repeat("!", d) + "y", "x = " + strings.Repeat("-", 1) + strings.Repeat("(-", d/2) + "y" + strings.Repeat(")", d/2),
+			"a" + strings.Repeat("[0].f", d), "a" + strings.Repeat("[0]", d), "a" + strings.Repeat(".f", d), "f" + strings.Repeat("(1)", d),
+			"x = " + strings.Repeat("~ ", d) + "1", "x = 1" + strings.Repeat(" + 1", d), "x = 1" + strings.Repeat(" - (1", d/2) + strings.Repeat(")", d/2),
+			"x = " + strings.Repeat("[", d/2) + "1" + strings.Repeat("]", d/2), "x = " + strings.Repeat("(", d/2) + "1" + strings.Repeat(")", d/2),
+			"x = a" + strings.Repeat(" = a", d/4), "x = " + strings.Repeat("n => ", d/4) + "n"} {
+			one(c, []byte(src), false, &s)
+			ndeep++
+		}
+	}
+	c.Dist["deep-chain-programs"] = ndeep
 	// generated programs
 	n := 1500
 	if c.Thorough() {
